@@ -4,10 +4,12 @@ For a fixed length this covers every input; the bound is on the LENGTH only (sta
 from vlib.ring import (Unit, Sym, VArr, VIter, VTuple, VOpaque, VStruct, VOk, UNIT, as_poly as P, sym, OutsideFragment, canon)
 from vlib.poly import Poly, C, S
 
+import os
+THOROUGH = os.environ.get("VERIF_TIER") == "thorough"      # thorough tier: larger instance sizes (same units, wider ranges)
 UNITS = []
 CONTRACTS = {}
 LEMMAS = []
-MAXLEN = 5
+MAXLEN = 7 if THOROUGH else 5
 
 
 def unit(name, file, fn, params, contract, outputs, **kw):
@@ -90,7 +92,7 @@ def c_ruffini(k):
     return c
 
 
-for k in range(0, 7):
+for k in range(0, 10 if THOROUGH else 7):
     u = unit(f"kernels.ruffini[len={k}]", PF, "Polynomial::ruffini", [("self", mk_poly("p", k)), ("z", sym("z"))], c_ruffini(k),
              lambda res, args, ctx: {"result": res})
     u.extra_contracts = {"Polynomial::from_coefficients_vec": c_from_coefficients_vec}
@@ -100,7 +102,7 @@ def lemma_ruffini_identity():
     """the closed form used as the contract IS division by (X - z): q(X) (X - z) + p(z) == p(X), checked as a polynomial identity
     in p_0.., z, X for every instance length"""
     obs = []
-    for k in range(0, 7):
+    for k in range(0, 10 if THOROUGH else 7):
         p = [P(Sym(f"p{i}")) for i in range(k)]
         z, X = P(Sym("z")), P(Sym("X"))
         q = []
@@ -157,7 +159,7 @@ def c_evaluate(k):
     return c
 
 
-for k in range(0, 7):
+for k in range(0, 10 if THOROUGH else 7):
     unit(f"kernels.evaluate[len={k}]", PF, "Polynomial::evaluate", [("self", mk_poly("p", k)), ("value", sym("v"))], c_evaluate(k),
          lambda res, args, ctx: {"result": res})
 
@@ -272,7 +274,7 @@ def out_fft(n, var="w"):
     return out
 
 
-for lg in range(0, 6):
+for lg in range(0, 8 if THOROUGH else 6):
     n_ = 1 << lg
     u = unit(f"kernels.serial_fft[n={n_}]", DM, "alloc::serial_fft", [("a", mk_arr("a", n_)), ("omega", sym("w")), ("log_n", (lambda lg=lg: lg))],
              c_serial_fft(n_), out_fft(n_))
@@ -332,7 +334,7 @@ def out_dom(n, var):
     return lambda res, args, ctx: {"result": [reduce_root(x, var, n) for x in res.items], "exits": list(ctx.exits)}
 
 
-for n_ in (1, 2, 4, 8):
+for n_ in ((1, 2, 4, 8, 16, 32) if THOROUGH else (1, 2, 4, 8)):
     for m_ in sorted({0, 1, n_ - 1, n_, n_ + 1} - {-1}):
         for kind, var in (("fft", "w"), ("ifft", "wi"), ("coset_fft", "w"), ("coset_ifft", "wi")):
             pname = "coeffs" if "ifft" not in kind else "evals"
@@ -417,7 +419,10 @@ def c_butterfly(m):
     return c
 
 
-for (m_, T_) in [(1, 1), (2, 1), (4, 3), (8, 4), (8, 17), (16, 5), (16, 16), (32, 17), (512, 16), (512, 17)]:
+PB = [(1, 1), (2, 1), (4, 3), (8, 4), (8, 17), (16, 5), (16, 16), (32, 17), (512, 16), (512, 17)]
+if THOROUGH:
+    PB += [(m, t) for m in (64, 256, 1024) for t in (1, 2, 7, 13, 16, 17)]
+for (m_, T_) in PB:
     u = unit(f"kernels.parallel_butterfly_chunk[m={m_},threads={T_}]", DM, "alloc::parallel_butterfly_chunk",
              [("chunk", mk_arr("c", 2 * m_)), ("m", (lambda m_=m_: m_)), ("w_m", sym("wm"))], c_butterfly(m_),
              lambda res, args, ctx: {"chunk": list(args[0].items), "exits": list(ctx.exits)})
